@@ -98,7 +98,7 @@ func main() {
 	tier := flag.String("tier", "quick", "quick|thorough")
 	replay := flag.String("replay", "", "replay file to re-execute")
 	bases := flag.String("bases", "MemFS,OrefaFS", "base file systems")
-	only := flag.String("only", "", "run only these parts (comma list of: fault,handle,none,okfunc,readonly)")
+	only := flag.String("only", "", "run only these parts (comma list of: fault,handle,none,okfunc,readonly,conc)")
 	depthF := flag.Int("depth", 0, "override the history bound of all parts")
 
 	var w1, w2 string
@@ -479,6 +479,13 @@ func main() {
 		os.Exit(2)
 	}
 
+	// concurrent clause (conc.go)
+	var conc map[string]any
+
+	if *only == "" || strings.Contains(","+*only+",", ",conc,") {
+		conc = runConc(*tier, rep)
+	}
+
 	code := rep.Finish()
 
 	e := ev.Evidence{
@@ -487,7 +494,7 @@ func main() {
 			"evaluations":         runs,
 			"distinct_nontrivial": len(classes),
 			"rule": "evaluations = executions of a whole history on fresh real instances in part (ii): one fault-free run per history (recording always-nil failure function, " +
-				"lock-step with the twin base) + one run per (consultation index k of its trace, error E in {private sentinel, *fs.PathError{ErrPermDenied}}), " +
+				"lock-step with the twin base) + one run per (consultation index k of its trace, error E in {private sentinel, *fs.PathError{ErrPermDenied}, *fs.PathError{ErrNoSuchFileOrDir} (an fs.ErrNotExist error, the kind composites branch on)}), " +
 				"each in lock-step with a twin base that skips the failed call; plus the handle programmes: one fault-free run per (opening prefix, File method F) and one run " +
 				"'prefix; F with consultation k returning E; G; Close' per (prefix, F, k, E, File method G), counted in single_fault_runs as well; " +
 				"distinct_nontrivial = number of distinct (FnVFS id of the failing consultation, harness-level method it fired in, E, outcome class: exact-E | other-error:<errno> | nil | PANIC | DEADLOCK) " +
@@ -495,6 +502,7 @@ func main() {
 			"samples":           samples,
 			"histories":         histories,
 			"single_fault_runs": faultRuns,
+			"concurrent_part":   conc,
 			"handle_programmes": map[string]any{
 				"shape":                        "open (every pool open of slot 0 on the FailFS, and through Sub(\"/\") on MemFS); [pre]; F fails; G; Close - F, G: every File method of the alphabet",
 				"opening_prefixes":             hprefixes,
@@ -520,7 +528,7 @@ func main() {
 			"exhaustive":                    bfsExh && faultExh && harnessErr == "",
 			"bound": fmt.Sprintf("(i)/(iii) all histories of length <= %d (completed %d) per system, OpenFile with %d flag sets (4 of them O_RDONLY plus TRUNC / CREATE / CREATE|EXCL / APPEND) on each of %d paths; "+
 				"(ii) all single-fault plans of all histories of length <= %d (completed %d), twin in lock-step before and after the failure; "+
-				"(ii') all handle programmes open;[pre];F fails;G;Close with pre in {none, %s} (\"*\" = every File call), every File method F (every consultation, both errors) and every File method G (%d letters)",
+				"(ii') all handle programmes open;[pre];F fails;G;Close with pre in {none, %s} (\"*\" = every File call), every File method F (every consultation, every error) and every File method G (%d letters)",
 				bfsDepth, depthDone, len(flagSets), len(nsPaths), faultHist, histDone, strings.Join(handlePres, ", "), len(fileCalls())),
 			"known_findings_matched": append([]string{}, rep.KnownMatched()...),
 		},
